@@ -320,10 +320,10 @@ func c17Run(in0 interface{}) Result {
 		var status int
 		select {
 		case status = <-done:
-		case <-time.After(5 * time.Second):
+		case <-time.After(10 * time.Second):
 			c17Stuck++
 			backend.CloseClientConnections() // else the deferred Close waits for the stuck upload
-			return Result{Term: "(CStatus false 0%Z)", Obs: "handler did not return within 5s", Class: "status:stuck", Sig: fmt.Sprintf("status:over=%v", over), Direct: "proxied upload: handler did not return within 5s"}
+			return Result{Term: "(CStatus false 0%Z)", Obs: "handler did not return within 10s", Class: "status:stuck", Sig: fmt.Sprintf("status:over=%v", over), Direct: "proxied upload: handler did not return within 10s"}
 		}
 		return Result{Term: cApp("CStatus", cBool(over), cZ(int64(status))), Obs: status, Sig: fmt.Sprintf("status:over=%v", over), Nontrivial: over, Class: fmt.Sprintf("status:over=%v", over)}
 	}
@@ -992,14 +992,14 @@ func c17RunSite(in *c17In) Result {
 		return fail("dial: " + err.Error())
 	}
 	defer conn.Close()
-	conn.SetDeadline(time.Now().Add(5 * time.Second))
+	conn.SetDeadline(time.Now().Add(10 * time.Second))
 	go conn.Write(sb.Bytes())
 	br := bufio.NewReader(conn)
 	status, followup := -1, -2
 	r1, err := http.ReadResponse(br, &http.Request{Method: "POST"})
 	if ne, ok := err.(net.Error); ok && ne.Timeout() {
 		c17Stuck++
-		r := fail("upload was not answered within 5s")
+		r := fail("upload was not answered within 10s")
 		r.Sig, r.Class = "site:stuck", "site:stuck"
 		return r
 	}
